@@ -1,0 +1,222 @@
+//! Verification hooks: read-only snapshots of internal bookkeeping and thin
+//! wrappers around crate-private data structures.
+//!
+//! Compiled only with `--cfg evenio_verif`. Nothing here is part of the
+//! supported API.
+#![allow(missing_docs, missing_debug_implementations, clippy::type_complexity)]
+
+#[cfg(not(feature = "std"))]
+use alloc::vec::Vec;
+use core::sync::atomic::{AtomicU64, Ordering};
+
+use crate::entity::EntityId;
+use crate::slot_map::{Key, NextKeyIter, SlotMap};
+use crate::world::World;
+
+/// Number of times any world reset its bump allocator.
+pub static BUMP_RESETS: AtomicU64 = AtomicU64::new(0);
+
+pub fn bump_resets() -> u64 {
+    BUMP_RESETS.load(Ordering::Relaxed)
+}
+
+#[derive(Clone, Debug, PartialEq, Eq)]
+pub struct ArchSnapshot {
+    pub slab_key: u32,
+    pub index: u32,
+    pub components: Vec<u32>,
+    pub entity_ids: Vec<(u32, u32)>,
+    pub capacity: usize,
+    pub column_ptrs: Vec<usize>,
+    pub column_aligns: Vec<usize>,
+    pub insert_edges: Vec<(u32, u32)>,
+    pub remove_edges: Vec<(u32, u32)>,
+    /// Handler ids, sorted.
+    pub refresh_listeners: Vec<(u32, u32)>,
+    /// `(targeted event index, before, after, handler ids in list order)`,
+    /// sorted by event index.
+    pub event_listeners: Vec<(u32, u32, u32, Vec<(u32, u32)>)>,
+}
+
+#[derive(Clone, Debug, PartialEq, Eq)]
+pub struct SlotMapSnapshot {
+    /// `(generation, next_free link if vacant)`
+    pub slots: Vec<(u32, Option<u32>)>,
+    pub next_free: u32,
+    pub len: u32,
+}
+
+impl From<(Vec<(u32, Option<u32>)>, u32, u32)> for SlotMapSnapshot {
+    fn from((slots, next_free, len): (Vec<(u32, Option<u32>)>, u32, u32)) -> Self {
+        Self {
+            slots,
+            next_free,
+            len,
+        }
+    }
+}
+
+#[derive(Clone, Debug, PartialEq, Eq)]
+pub struct Snapshot {
+    pub archetypes: Vec<ArchSnapshot>,
+    pub by_components: Vec<(Vec<u32>, u32)>,
+    pub entities: SlotMapSnapshot,
+    /// `(slot index, archetype, row)` for every live entity.
+    pub locations: Vec<(u32, u32, u32)>,
+    pub reserved_cursor: u32,
+    pub reserved_count: u32,
+    /// Where a fresh `next_key_iter()` of the entity slot map would start.
+    pub next_key_index: u32,
+    pub event_queue_len: usize,
+    /// Per global event index: `(before, after, handler ids in list order)`.
+    pub global_lists: Vec<(u32, u32, Vec<(u32, u32)>)>,
+    pub by_insert_order: Vec<(u64, (u32, u32))>,
+    pub handlers: SlotMapSnapshot,
+    /// `(component index, member_of sorted, insert events, remove events)`.
+    pub components: Vec<(u32, Vec<u32>, Vec<(u32, u32)>, Vec<(u32, u32)>)>,
+}
+
+pub fn snapshot(world: &World) -> Snapshot {
+    let (entities, reserved, queue_len) = world.verif_parts();
+    let locs = entities.verif_locs();
+    let (global_lists, by_insert_order, handlers) = world.handlers().verif_snapshot();
+
+    let conv = |id: crate::handler::HandlerId| (id.index().0, id.generation());
+
+    Snapshot {
+        archetypes: world.archetypes().verif_snapshot(),
+        by_components: world.archetypes().verif_by_components(),
+        entities: locs.verif_raw().into(),
+        locations: locs
+            .iter()
+            .map(|(k, loc)| (k.index(), loc.archetype.0, loc.row.0))
+            .collect(),
+        reserved_cursor: reserved.verif_state().0,
+        reserved_count: reserved.verif_state().1,
+        next_key_index: locs.next_key_iter().verif_index(),
+        event_queue_len: queue_len,
+        global_lists: global_lists
+            .into_iter()
+            .map(|(b, a, ids)| (b, a, ids.into_iter().map(conv).collect()))
+            .collect(),
+        by_insert_order: by_insert_order
+            .into_iter()
+            .map(|(k, id)| (k, conv(id)))
+            .collect(),
+        handlers: handlers.into(),
+        components: world
+            .components()
+            .iter()
+            .map(|info| {
+                let mut member_of: Vec<u32> = info.member_of.iter().map(|a| a.0).collect();
+                member_of.sort_unstable();
+                (
+                    info.id().index().0,
+                    member_of,
+                    info.insert_events()
+                        .iter()
+                        .map(|e| (e.index().0, e.generation()))
+                        .collect(),
+                    info.remove_events()
+                        .iter()
+                        .map(|e| (e.index().0, e.generation()))
+                        .collect(),
+                )
+            })
+            .collect(),
+    }
+}
+
+/// Sets the generation of a live entity's slot (and the id stored in its
+/// archetype row) to `generation`, which must be odd. Returns the entity's
+/// new id.
+pub fn force_entity_generation(
+    world: &mut World,
+    id: EntityId,
+    generation: u32,
+) -> Option<EntityId> {
+    let loc = world.entities().get(id)?;
+    let new_id = EntityId::new(id.index().0, generation)?;
+    let (entities, archetypes) = world.verif_parts_mut();
+
+    if !entities
+        .verif_locs_mut()
+        .verif_set_generation(id.index().0, generation)
+    {
+        return None;
+    }
+
+    archetypes.verif_set_entity_id(loc, new_id);
+    Some(new_id)
+}
+
+/// `SlotMap<u32>` behind a public face.
+#[derive(Clone, Debug, Default)]
+pub struct SlotMapU32(SlotMap<u32>);
+
+impl SlotMapU32 {
+    pub fn new() -> Self {
+        Self(SlotMap::new())
+    }
+
+    pub fn insert(&mut self, value: u32) -> Option<(u32, u32)> {
+        self.0
+            .insert_with(|_| value)
+            .map(|k| (k.index(), k.generation().get()))
+    }
+
+    pub fn remove(&mut self, index: u32, generation: u32) -> Option<u32> {
+        self.0.remove(Key::verif_new(index, generation)?)
+    }
+
+    pub fn get(&self, index: u32, generation: u32) -> Option<u32> {
+        self.0.get(Key::verif_new(index, generation)?).copied()
+    }
+
+    pub fn get_by_index(&self, index: u32) -> Option<((u32, u32), u32)> {
+        self.0
+            .get_by_index(index)
+            .map(|(k, v)| ((k.index(), k.generation().get()), *v))
+    }
+
+    pub fn len(&self) -> u32 {
+        self.0.len()
+    }
+
+    pub fn set_generation(&mut self, index: u32, generation: u32) -> bool {
+        self.0.verif_set_generation(index, generation)
+    }
+
+    pub fn raw(&self) -> SlotMapSnapshot {
+        self.0.verif_raw().into()
+    }
+
+    pub fn next_key_iter(&self) -> NextKeyU32 {
+        NextKeyU32(self.0.next_key_iter())
+    }
+}
+
+/// `NextKeyIter<u32>` behind a public face.
+#[derive(Clone, Copy, Debug)]
+pub struct NextKeyU32(NextKeyIter<u32>);
+
+impl NextKeyU32 {
+    pub fn new() -> Self {
+        Self(NextKeyIter::new())
+    }
+
+    pub fn index(&self) -> u32 {
+        self.0.verif_index()
+    }
+
+    /// Panics like the real one if the map changed under the iterator.
+    pub fn next(&mut self, sm: &SlotMapU32) -> Option<(u32, u32)> {
+        self.0.next(&sm.0).map(|k| (k.index(), k.generation().get()))
+    }
+}
+
+impl Default for NextKeyU32 {
+    fn default() -> Self {
+        Self::new()
+    }
+}
